@@ -25,4 +25,7 @@ FAMILIES = {
 
 PROPS = {
     "C01": dict(families=dict(quick=["core_s", "bind_s"], thorough=["core_m", "bind_m"])),
+    "C15": dict(stage_modules=["stage_mapops"]),
+    "C17": dict(stage_modules=["stage_mapops"]),
+    "C18": dict(stage_modules=["stage_symdiff"], stage_prop="C18"),
 }
